@@ -238,6 +238,8 @@ pub fn low_word(ctx: &mut Ctx, hi: f64) -> f64 {
             }
         }
     };
+    // clamp into the admissible set (matters only when the limit is within a few ulps of 2^-1074)
+    let lo = if lo > limit || (lo == limit && !even) { below } else { lo };
     let lo = if c == 1 { -0.0 } else { sgn * lo };
     if lo != 0.0 {
         ctx.label("lo:nonzero");
